@@ -966,8 +966,13 @@ class WorkflowConductor(object):
             # If there is a failure while evaluating the retry condition, log the error,
             # fail the workflow, and continue without retrying the task.
             try:
-                retry_task = self.get_workflow_status() in statuses.ACTIVE_STATUSES and (
-                    self._evaluate_task_retry(task_state_entry, current_ctx)
+                retry_task = (
+                    self.get_workflow_status() in statuses.ACTIVE_STATUSES
+                    # A task can only be retried from a status that can transition to retrying.
+                    and machines.TaskStateMachine.is_transition_valid(
+                        new_task_status, statuses.RETRYING
+                    )
+                    and self._evaluate_task_retry(task_state_entry, current_ctx)
                 )
             except Exception as e:
                 retry_task = False
